@@ -96,8 +96,13 @@ def fold(node, env):
             left = b
         return True
     if isinstance(node, ast.BoolOp):
-        vals = [fold(v, env) for v in node.values]
-        return all(vals) if isinstance(node.op, ast.And) else any(vals)
+        # Python's short-circuit semantics: the value of the deciding operand (later operands are not evaluated)
+        v = None
+        for sub in node.values:
+            v = fold(sub, env)
+            if bool(v) != isinstance(node.op, ast.And):
+                return v
+        return v
     if isinstance(node, ast.UnaryOp) and isinstance(node.op, ast.Not):
         return not fold(node.operand, env)
     raise _NoFold(ast.unparse(node))
@@ -203,17 +208,35 @@ def class_constants(prog, ci, first='self'):
     return env
 
 
-def _count_setter_outcome(prog, setter, val):
-    """(raised?, {attribute text: stored value}) of the coded-count setter for the concrete argument `val`."""
+def _ranges(pts):
+    out, i = [], 0
+    while i < len(pts):
+        j = i
+        while j + 1 < len(pts) and pts[j + 1] == pts[j] + 1:
+            j += 1
+        out.append(str(pts[i]) if i == j else '%d..%d' % (pts[i], pts[j]))
+        i = j + 1
+    return ', '.join(out)
+
+
+def _count_setter_outcome(prog, setter, val, why=False):
+    """(raised?, {attribute text: stored value}) of the coded-count setter for the concrete argument `val`
+    (with why=True a third element: None when the checker's evaluator closed the function, else what it could not evaluate)."""
+    r = _count_setter_outcome3(prog, setter, val)
+    return r if why else r[:2]
+
+
+def _count_setter_outcome3(prog, setter, val):
     pname = setter.params[1]
     first = setter.params[0]
+    reason = None
     try:
         env = class_constants(prog, setter.cls, first)
         env[pname] = val
         kind, _v, stores = fold_fn(setter.node, env)
-        return kind == 'raise', dict(stores)
-    except _NoFold:
-        pass
+        return kind == 'raise', dict(stores), None
+    except _NoFold as ex:
+        reason = str(ex)
     # not a closed integer function: the byte-term interpreter decides the branch(es) it can
     sc = Scenario(args={pname: Const(val)}, inline=lambda f: False)
     outs = Interp(prog, sc).run(setter)
@@ -224,7 +247,7 @@ def _count_setter_outcome(prog, setter, val):
             for (p, v, l, vv) in s.stores:
                 if isinstance(vv, Const) and isinstance(vv.value, int):
                     stores[p] = vv.value
-    return raised, stores
+    return raised, stores, reason
 
 
 def count_backing(prog):
@@ -260,29 +283,51 @@ def check_count(rep, prog, rid):
     backing = count_backing(prog)
     first = g.params[0]
     bad = None
-    try:
-        consts = class_constants(prog, ci, first)
-        for c in range(256):
-            want = (16 + (c & 15)) << ((c >> 4) + 6)          # RFC 4880 3.7.1.3, EXPBIAS = 6
-            env = dict(consts)
-            env['%s.%s' % (first, backing)] = c
+    open_pts = {}         # coded value -> what the getter reaches outside the coded octet there
+    consts = class_constants(prog, ci, first)
+    for c in range(256):
+        want = (16 + (c & 15)) << ((c >> 4) + 6)          # RFC 4880 3.7.1.3, EXPBIAS = 6
+        env = dict(consts)
+        env['%s.%s' % (first, backing)] = c
+        try:
             kind, got, stores = fold_fn(g.node, env)
-            if kind != 'return' or got != want or stores:
-                bad = (c, want, got if kind == 'return' else 'raise')
-                break
-    except _NoFold as ex:
-        raise AnalysisError('String2Key.count getter is not a closed arithmetic function of self.%s: %s' % (backing, ex))
+        except _NoFold as ex:
+            open_pts[c] = str(ex)
+            continue
+        if bad is None and (kind != 'return' or got != want or stores):
+            bad = (c, want, got if kind == 'return' else 'raise')
+    if len(open_pts) == 256:
+        # no coded value folds: the getter is outside what the evaluator models (exit 2, never a verdict)
+        raise AnalysisError('String2Key.count getter is not a closed arithmetic function of self.%s: %s' % (backing, open_pts[0]))
+    found = ' ; '.join(ast.unparse(x) for x in g.node.body)
     rep.check(bad is None, rid, 'String2Key.count', 'decoded count',
               'decoded count differs from RFC 4880 3.7.1.3 (16 + (c & 15)) << ((c >> 4) + 6)'
               + ('' if bad is None else ': c=%d gives %s, RFC gives %d' % (bad[0], bad[2], bad[1])),
-              where=g.where, expected='(16 + (c & 15)) << ((c >> 4) + 6) for all 256 coded values',
-              found=' ; '.join(ast.unparse(x) for x in g.node.body))
+              where=g.where, expected='(16 + (c & 15)) << ((c >> 4) + 6) for all 256 coded values', found=found)
+    if open_pts:
+        # the formula holds where it is closed, but at some coded values the result comes from somewhere else: a special case
+        pts = sorted(open_pts)
+        deps = sorted(set(open_pts.values()))
+        rep.violation(rid, 'String2Key.count', 'decoded count special-cased',
+                      'the decoded count at coded value%s %s depends on %s instead of the coded octet: RFC 4880 3.7.1.3 decodes every octet '
+                      '0..255 by the one formula' % ('' if len(pts) == 1 else 's', _ranges(pts), ', '.join(deps)), where=g.where,
+                      expected='(16 + (c & 15)) << ((c >> 4) + 6) for all 256 coded values', found=found)
     # setter: accepts exactly 0..255 and stores the coded octet
     setter = prop.setters.get('int')
     rep.saw(fn=setter)
     key = '%s.%s' % (setter.params[0], backing)
-    for val, want_raise in ((-1, True), (0, False), (255, False), (256, True)):
-        raised, stores = _count_setter_outcome(prog, setter, val)
+    points = ((-1, True), (0, False), (255, False), (256, True))
+    outcomes = {val: _count_setter_outcome(prog, setter, val, why=True) for val in (-1, 0, 1, 96, 254, 255, 256)}
+    for val in sorted(outcomes):
+        # compared with the other values of its class (in range / out of range): one statement that the evaluator does not model
+        # on every accepted value is a modelling gap, one that shows up at some values only is a special case
+        group = [v for v in outcomes if (0 <= v <= 255) == (0 <= val <= 255)]
+        if outcomes[val][2] is not None and any(outcomes[v][2] is None for v in group):
+            rep.violation(rid, 'String2Key.count_int', 'value %d special-cased' % val,
+                          'what the coded count setter does with %d depends on %s instead of the value alone' % (val, outcomes[val][2]),
+                          where=setter.where, expected='accept exactly 0..255 and store the octet', scenario='val=%d' % val)
+    for val, want_raise in points:
+        raised, stores = outcomes[val][:2]
         stored = stores.get(key) == val
         ok = raised if want_raise else (stored and not raised)
         rep.check(ok, rid, 'String2Key.count_int', 'value %d -> %s' % (val, 'raise' if raised else ('stored' if stored else 'dropped')),
